@@ -4,6 +4,7 @@ C10.a containment: calls that run the per-block pipeline are inside try/except E
 C10.b no unbounded / partial arithmetic in the constant folders               (shared with C03.b, see folds.py)
 C10.c no statically certain crash in reachable code: record keys, call arity, unbound names
 C10.d (informational) fixpoint drivers and their variants
+C10.e no while loop with an unchangeable condition
 """
 import ast
 import builtins
